@@ -4,6 +4,7 @@ import (
 	"fmt"
 	"runtime"
 	"sort"
+	"sync/atomic"
 	"time"
 	"unsafe"
 )
@@ -63,8 +64,19 @@ type vtimer struct {
 
 func (s *sched) fireTimer() bool { return false }
 
-// Now returns the virtual clock in a controlled execution.
+// clockOverride, when set, freezes the clock seen by instrumented code (also outside
+// controlled executions): harnesses decide what time it is.
+var clockOverride atomic.Int64
+
+// FreezeClock sets the time returned by Now (0 = real clock again).
+func FreezeClock(unixMilli int64) { clockOverride.Store(unixMilli) }
+
+// Now returns the frozen clock if set, the virtual clock in a controlled execution, else
+// the real time.
 func Now() time.Time {
+	if ms := clockOverride.Load(); ms != 0 {
+		return time.UnixMilli(ms)
+	}
 	s := cur()
 	if s == nil || s.inert() {
 		return time.Now()
